@@ -485,3 +485,6 @@ def values(chk, repo):
     chk.doc("R02.3", "fixed-point read (shared with C02)")
     rounding(chk, repo, dd)
     reads(chk, repo, dd)
+
+# added rules (appended to the explanation the evidence file carries)
+EXPLANATION += (" " + 'Added during the build (DESIGN.md 4.31, second table): (R08.6) who-may-decode rule; odd-size formats in the layout family; sign-extension tables of C01 shared (what the program reads is what was stored).')
